@@ -1,8 +1,10 @@
 package ip
 
 import (
+	"fmt"
 	"math/big"
 	"net"
+	"net/netip"
 	"testing"
 
 	"github.com/AliyunContainerService/terway/zz_verif/vt"
@@ -41,6 +43,11 @@ func genGW(t *rapid.T) gwScenario {
 		}
 	}
 	s.Prefix = rapid.IntRange(0, n*8).Draw(t, "prefix")
+	if s.V6 && rapid.IntRange(0, 15).Draw(t, "mapped") == 0 {
+		// subnets at and around the IPv4-mapped block ::ffff:0:0/96 (see mappedV6)
+		copy(s.Addr, []byte{0, 0, 0, 0, 0, 0, 0, 0, 0, 0, 0xff, 0xff})
+		s.Prefix = rapid.IntRange(72, 128).Draw(t, "mapped-prefix")
+	}
 	s.Form = rapid.IntRange(0, 1).Draw(t, "form")
 	// index in [-size-2, size+2) clipped to small magnitudes most of the time
 	s.Index = rapid.OneOf(
@@ -79,6 +86,25 @@ func refAtIndex(addr []byte, prefix int, index int64) net.IP {
 	return net.IP(out)
 }
 
+// mappedV6 reports whether a is a 16-byte address inside ::ffff:0:0/96. A net.IP cannot
+// tell such an address from the IPv4 address in its last four bytes (To4, String, Equal
+// and IPNet.Contains all treat it as IPv4), so neither the code under test nor the
+// reference can name it as a member of an IPv6 subnet. IPv6 queries whose start address
+// (first address for index >= 0, last address for index < 0) or expected result lies in
+// that block are outside the domain of the check; they are counted, not judged.
+func mappedV6(a net.IP) bool { return len(a) == net.IPv6len && a.To4() != nil }
+
+func outsideDomain(addr []byte, prefix int, index int64, want net.IP) bool {
+	if len(addr) != net.IPv6len {
+		return false
+	}
+	anchor := refAtIndex(addr, prefix, 0)
+	if index < 0 {
+		anchor = refAtIndex(addr, prefix, -1)
+	}
+	return mappedV6(anchor) || mappedV6(want)
+}
+
 func runGW(c *vt.Ctx, s gwScenario) {
 	bits := len(s.Addr) * 8
 	mask := net.CIDRMask(s.Prefix, bits)
@@ -103,9 +129,15 @@ func runGW(c *vt.Ctx, s gwScenario) {
 		txtIP = ipn.IP
 	}
 	cidr := (&net.IPNet{IP: txtIP, Mask: mask}).String()
+	if mappedV6(txtIP) {
+		// net.IP.String() would print the IPv4 form, which is a different CIDR
+		cidr = fmt.Sprintf("%s/%d", netip.AddrFrom16([16]byte(txtIP)), s.Prefix)
+	}
 	got := DeriveGatewayIP(cidr)
 	want := refAtIndex(s.Addr, s.Prefix, -3)
-	if want == nil {
+	if outsideDomain(s.Addr, s.Prefix, -3, want) {
+		c.Label("outside-domain:gateway-in-v4-mapped-block")
+	} else if want == nil {
 		if got != "" {
 			c.Fatalf("DeriveGatewayIP(%q) = %q, want empty (subnet has < 3 addresses)", cidr, got)
 		}
@@ -131,6 +163,8 @@ func runGW(c *vt.Ctx, s gwScenario) {
 	gi := GetIPAtIndex(ipn, s.Index)
 	wi := refAtIndex(s.Addr, s.Prefix, s.Index)
 	switch {
+	case outsideDomain(s.Addr, s.Prefix, s.Index, wi):
+		c.Label("outside-domain:index-in-v4-mapped-block")
 	case wi == nil && gi != nil:
 		c.Fatalf("GetIPAtIndex(%s, %d) = %s, want nil", ipn.String(), s.Index, gi)
 	case wi != nil && gi == nil:
